@@ -342,6 +342,7 @@ def check(chk):
     _light_player(chk, repo)
     _commands_reach_the_stack(chk, repo)
     _default_fade_only_for_none(chk, repo)
+    _batch_skip_and_fadeout_source(chk, repo)
 
     # ------------------------------------------------------------ BATCH-1
     g = repo.func(BL, "PlatformBatchLightSystem._send_update_batch")
@@ -970,6 +971,32 @@ def _default_fade_only_for_none(chk, repo):
                    f.where(n.ast), detail="default taken under %s" % sorted(got), construct=f.ident, text="default fade condition in " + name)
 
 
+def _batch_skip_and_fadeout_source(chk, repo):
+    """BATCH-2 (skip): a batch is addressed as "first light + N consecutive values": a light whose brightness the hardware already has is left
+    out only while the batch is still empty (`not sequential_brightness_list` holds definitely where the loop `continue`s) - left out in the
+    middle, every later value lands on the wrong channel.
+    FADE-2 (fade-out): the colour a removed key fades out from is the colour of the sub-stack that starts at the key (what that key showed),
+    not of the whole stack (what a higher entry shows)."""
+    PBF = "mpf/core/platform_batch_light_system.py"
+    f = repo.func(PBF, "PlatformBatchLightSystem._send_update_batch")
+    chk.analysed(f)
+    cfg = f.cfg()
+    conts = [n for n in cfg.nodes if n.kind == "stmt" and isinstance(n.ast, ast.Continue)]
+    chk.need(conts, "BATCH-2", "_send_update_batch skips lights whose brightness is already realised", f)
+    for n in conts:
+        g = cfg.guards_at(n.id)
+        ok = g.get("sequential_brightness_list") is False or g.get("not sequential_brightness_list") is True
+        chk.ob("BATCH-2", "an already realised light is skipped only at the beginning of a batch", ok, f.where(n.ast), detail="guards %s" % sorted(g.items()), construct=f.ident,
+               text="batch skip position")
+    g_ = repo.func(LT, "Light.remove_from_stack_by_key")
+    sub = {t.id for x in walk_local(g_.node) if isinstance(x, ast.Assign) and isinstance(x.value, ast.Subscript) and src(x.value.value) == "self.stack" and
+           isinstance(x.value.slice, ast.Slice) for t in x.targets if isinstance(t, ast.Name)}
+    cs = [c for c in g_.calls() if call_attr(c) == "_get_color_and_fade"]
+    ok = bool(cs) and bool(sub) and all(c.args and isinstance(c.args[0], ast.Name) and c.args[0].id in sub for c in cs)
+    chk.ob("FADE-2", "a fade-out starts from the colour of the sub-stack beginning at the removed key", ok, g_.where(cs[0]) if cs else g_.where(),
+           detail=", ".join(src(c.args[0]) for c in cs if c.args), construct=g_.ident, text="fade-out start colour source")
+
+
 def scan_exits_only_at_key(chk, rule, g, gcfg, h, name):
     """Every early exit (break / return) of a stack scan is taken at the key, so the entry with that key is always found."""
     for n in gcfg.nodes_where(lambda n: n.kind == "stmt" and isinstance(n.ast, (ast.Break, ast.Return))):
@@ -985,6 +1012,8 @@ def scan_exits_only_at_key(chk, rule, g, gcfg, h, name):
 def battery():
     from sa.battery import M
     return [
+        M("realised light skipped in the middle of an un-faded batch", "mpf/core/platform_batch_light_system.py", "                        not sequential_brightness_list:\n", "                        (not sequential_brightness_list or fade_ms == 0):\n", "BATCH-2"),
+        M("fade-out starts from the colour on top of the stack", LT, "            color_of_key = self._get_color_and_fade(stack, 0)[0]", "            color_of_key = self._get_color_and_fade(self.stack, 0)[0]", "FADE-2"),
         M("explicit fade 0 replaced by the default on removal", LT, "            return\n\n        if fade_ms is None:\n            fade_ms = self.default_fade_ms\n\n        key = str(key)", "            return\n\n        if not fade_ms:\n            fade_ms = self.default_fade_ms\n\n        key = str(key)", "FADE-2"),
         M("remembered fade unpacked in the wrong order", LT, "        if self._last_fade_target and target_color == self._last_fade_target[2] and \\\n                (self._last_fade_target[3] < 0 or self._last_fade_target[3] < self.machine.clock.get_time()):\n", "        last_color, _, _, last_time = self._last_fade_target or (None, 0, None, 0)\n        if self._last_fade_target and target_color == last_color and \\\n                (last_time < 0 or last_time < self.machine.clock.get_time()):\n", "SUPP-1"),
         M("twin: remembered fade read through an unpacking", LT, "        if self._last_fade_target and target_color == self._last_fade_target[2] and \\\n                (self._last_fade_target[3] < 0 or self._last_fade_target[3] < self.machine.clock.get_time()):\n", "        _, _, last_color, last_time = self._last_fade_target or (None, 0, None, 0)\n        if self._last_fade_target and target_color == last_color and \\\n                (last_time < 0 or last_time < self.machine.clock.get_time()):\n", None),
